@@ -291,10 +291,10 @@ Proof.
   assert (Y : existsb p l = true) by (apply existsb_exists; now exists x). congruence.
 Qed.
 
-Lemma WFw_set_data_core w ti t n s new_data new_did wcl :
+Lemma WFx_set_data_core w ti t n s new_data new_did wcl :
   WFw w -> get_tree w ti = Some t -> get_node n (forest_of t) = Some s ->
   (forall e, new_did = Some e -> e <> rdid s) ->
-  WFw (snd (set_data_core w ti t n s new_data new_did wcl)).
+  WFx w (snd (set_data_core w ti t n s new_data new_did wcl)).
 Proof.
   intros H Gt Gn Hne. assert (Wt := WFw_tree w ti t H Gt). unfold set_data_core.
   set (f := forest_of t). set (cur := idx_get (rdid s) (idx t)).
@@ -305,21 +305,21 @@ Proof.
   { destruct (WF_spelled t Wt) as (_ & _ & _ & _ & G & _). unfold cur, idx_get.
     destruct (find (fun e => did_eqb (fst e) (rdid s)) (idx t)) as [e0|] eqn:E; [|constructor].
     apply find_some in E. destruct E as [E _]. rewrite Forall_forall in G. now apply (G e0 E). }
-  destruct (Nat.ltb 1 (length cur) && match wcl with None => true | _ => false end); [exact H|].
+  destruct (Nat.ltb 1 (length cur) && match wcl with None => true | _ => false end); [exact (WFx_refl w H)|].
   set (wc := match wcl with Some true => true | _ => false end).
   set (setd := fun inf => match new_data with Some x => set_dat_i x inf | None => inf end).
   assert (Hsetd : forall inf, i_did (setd inf) = i_did inf) by (intros inf; unfold setd; now destruct new_data).
   destruct new_did as [e|].
   - specialize (Hne e eq_refl).
     set (G := if Nat.ltb 1 (length cur) && wc then cur else [n]).
-    destruct (existsb (sib_clash f G e) G) eqn:Cl; [exact H|]. cbn [snd]. unfold put_tree.
+    destruct (existsb (sib_clash f G e) G) eqn:Cl; [exact (WFx_refl w H)|]. cbn [snd]. unfold put_tree.
     assert (NG : NoDup G) by (unfold G; destruct (Nat.ltb 1 (length cur) && wc); [assumption|constructor; [intros []|constructor]]).
     assert (HG : forall m, In m G -> In (m, rdid s) (keys f)).
     { unfold G. destruct (Nat.ltb 1 (length cur) && wc); [intros m Hm; now apply Hcur|intros m [<-|[]]; assumption]. }
     destruct (WF_rekey_forest t G (fun inf => set_did_i e (setd inf)) e (rdid s) Wt NG (fun _ => eq_refl) HG
                 (existsb_false_forall _ _ Cl)) as (F1 & F2 & F3 & F4 & F5). fold f in F1, F2, F3, F4, F5.
     unfold setd in F1, F2, F3, F4, F5. cbn beta in F1, F2, F3, F4, F5.
-    apply (WFw_put w ti t); auto.
+    apply (WFx_put w ti t); auto.
     + eapply WF_intro; [reflexivity|exact F1|exact F2| |  |exact F4].
       * rewrite F3. apply Wt.
       * rewrite F5. unfold G. destruct (Nat.ltb 1 (length cur) && wc).
@@ -329,13 +329,20 @@ Proof.
            apply (IdxOK_perm _ ((n, e) :: K0)); [|now symmetry]. apply idx_add_ok. apply idx_del_ok.
            apply (IdxOK_perm _ (keys f)); [apply (WF_idx t Wt)|assumption].
     + intros m Hm. left. cbn [forest_of set_all] in Hm. now rewrite F3 in Hm.
-  - destruct new_data as [x|]; [|exact H]. cbn [snd]. unfold put_tree.
+  - destruct new_data as [x|]; [|exact (WFx_refl w H)]. cbn [snd]. unfold put_tree.
     set (G := if wc then cur else [n]).
     assert (NG : NoDup G) by (unfold G; destruct wc; [assumption|constructor; [intros []|constructor]]).
     destruct (WF_relabel_keep t G setd Wt NG Hsetd) as (W' & Ei).
-    apply (WFw_put w ti t); [exact H|exact Gt|exact W'|lia|]. intros m Hm. left.
+    apply (WFx_put w ti t); [exact H|exact Gt|exact W'|lia|]. intros m Hm. left.
     assert (Hm' : In m (ids (relabel G setd (forest_of t)))) by exact Hm. rewrite Ei in Hm'. exact Hm'.
 Qed.
+
+Lemma WFw_set_data_core w ti t n s new_data new_did wcl :
+  WFw w -> get_tree w ti = Some t -> get_node n (forest_of t) = Some s ->
+  (forall e, new_did = Some e -> e <> rdid s) ->
+  WFw (snd (set_data_core w ti t n s new_data new_did wcl)).
+Proof. intros H0 H1 H2 H3. exact (proj1 (WFx_set_data_core w ti t n s new_data new_did wcl H0 H1 H2 H3)). Qed.
+
 
 Definition sd_new_data (s : rt) (d : option dat) : option dat :=
   match d with Some x => if Z.eqb (d_obj x) (i_obj (rinfo s)) then None else Some x | None => None end.
@@ -367,22 +374,29 @@ Proof.
   destruct d as [x|]; destruct explicit as [e0|]; reflexivity.
 Qed.
 
-Theorem WFw_op_set_data w ti n d explicit wcl : WFw w -> WFw (snd (op_set_data w ti n d explicit wcl)).
+Theorem WFx_op_set_data w ti n d explicit wcl : WFw w -> WFx w (snd (op_set_data w ti n d explicit wcl)).
 Proof.
   intros H. rewrite op_set_data_eq.
-  destruct (get_tree w ti) as [t|] eqn:Gt; [|exact H].
-  destruct (get_node n (forest_of t)) as [s|] eqn:Gn; [|exact H].
-  assert (Core : forall nd did', WFw (snd (set_data_core w ti t n s nd (sd_new_did s did') wcl))).
-  { intros nd did'. apply WFw_set_data_core; try assumption. intros e E. unfold sd_new_did in E.
+  destruct (get_tree w ti) as [t|] eqn:Gt; [|exact (WFx_refl w H)].
+  destruct (get_node n (forest_of t)) as [s|] eqn:Gn; [|exact (WFx_refl w H)].
+  assert (Core : forall nd did', WFx w (snd (set_data_core w ti t n s nd (sd_new_did s did') wcl))).
+  { intros nd did'. apply WFx_set_data_core; try assumption. intros e E. unfold sd_new_did in E.
     destruct did' as [e1|]; [|discriminate]. destruct (did_eqb e1 (rdid s)) eqn:Q; [discriminate|].
     injection E as <-. intros X. rewrite X, did_eqb_refl in Q. discriminate. }
-  destruct d as [x|]; destruct explicit as [e0|]; try exact H;
-    (destruct (sd_did' t _ _) as [did'|]; [apply Core|exact H]).
+  destruct d as [x|]; destruct explicit as [e0|]; try exact (WFx_refl w H);
+    (destruct (sd_did' t _ _) as [did'|]; [apply Core|exact (WFx_refl w H)]).
+Qed.
+
+Theorem WFw_op_set_data w ti n d explicit wcl : WFw w -> WFw (snd (op_set_data w ti n d explicit wcl)).
+Proof. intros H. exact (proj1 (WFx_op_set_data w ti n d explicit wcl H)). Qed.
+
+Theorem WFx_op_rename w ti n d : WFw w -> WFx w (snd (op_rename w ti n d)).
+Proof.
+  intros H. unfold op_rename. destruct (get_tree w ti) as [t|]; [|exact (WFx_refl w H)].
+  destruct (get_node n (forest_of t)) as [s|]; [|exact (WFx_refl w H)]. destruct (i_isstr (rinfo s)); [|exact (WFx_refl w H)].
+  now apply WFx_op_set_data.
 Qed.
 
 Theorem WFw_op_rename w ti n d : WFw w -> WFw (snd (op_rename w ti n d)).
-Proof.
-  intros H. unfold op_rename. destruct (get_tree w ti) as [t|]; [|exact H].
-  destruct (get_node n (forest_of t)) as [s|]; [|exact H]. destruct (i_isstr (rinfo s)); [|exact H].
-  now apply WFw_op_set_data.
-Qed.
+Proof. intros H0. exact (proj1 (WFx_op_rename w ti n d H0)). Qed.
+
